@@ -112,7 +112,9 @@ func (e *Engine) VerifyFunction(fn *ssa.Function, c *Contract, panics bool, prop
 	if fn.Signature.Results().Len() > 0 {
 		r.bindResults(env2, fn.Signature, retv)
 	}
-	// named results that are address-taken locals are already covered by return values
+	for _, u := range c.Uses {
+		r.assume(fin, env2.useAxiom(u))
+	}
 	for i, cl := range c.Ensures {
 		if !rt.wantClause(cl) {
 			continue
@@ -290,8 +292,12 @@ func (r *FnRun) frameObligations(fin, entry *State, env *Env) {
 func (r *FnRun) isLocalHeapAddr(a *Term) *Term {
 	tb := r.tb()
 	var eqs []*Term
-	for _, t := range r.root.localAddrs {
-		eqs = append(eqs, tb.Eq(a, t))
+	for i, t := range r.root.localAddrs {
+		sz := r.root.localSizes[i]
+		if sz < 1 {
+			sz = 1
+		}
+		eqs = append(eqs, tb.ULt(tb.Sub(a, t), tb.BVI(64, sz)))
 	}
 	return tb.Or(eqs...)
 }
@@ -353,6 +359,9 @@ func (r *FnRun) enterLoop(li *loopInfo, edges []edge) *State {
 	envH := r.loopEnv(cur, nil)
 	for _, inv := range li.Spec.Inv {
 		r.assume(cur, envH.EvalBool(inv.E))
+	}
+	for _, u := range li.Spec.Uses {
+		r.assume(cur, envH.useAxiom(u))
 	}
 	if li.Spec.Dec != nil {
 		d := envH.coerceConst(envH.Eval(li.Spec.Dec), types.Typ[types.Int])
